@@ -76,7 +76,10 @@ func c11History(k *fw.K, quick bool) {
 	if quick {
 		m.Steps = 2 + r.Intn(5)
 	}
-	m.Variant = []string{"plain", "plain", "omit-reset", "extra-forward", "reuse-batch", "dead-relu"}[r.Intn(6)]
+	m.Variant = []string{"plain", "vary-batch", "omit-reset", "extra-forward", "reuse-batch", "dead-relu", "exact-fit"}[r.Intn(7)]
+	if m.Variant == "exact-fit" { // dyadic data: some residuals are exactly 0 from the first step on
+		m.Act, m.Loss, m.B = "none", "mse", 1 // no activation: an exact 0 pre-activation would sit on Relu's non-differentiable point
+	}
 	if m.Variant == "dead-relu" {
 		m.Act, m.Loss = "relu", "mse"
 	}
@@ -84,6 +87,11 @@ func c11History(k *fw.K, quick bool) {
 		m.OmitStep, m.OmitW = r.Intn(m.Steps-1), r.Intn(2)
 	}
 	w0, b0 := RandT(r, []int{m.O}, -1, 1), RandT(r, []int{m.O}, -1, 1)
+	if m.Variant == "exact-fit" {
+		for i := range w0.Data {
+			w0.Data[i], b0.Data[i] = float64(r.Intn(9)-4)/4, float64(r.Intn(9)-4)/4
+		}
+	}
 	if m.Variant == "dead-relu" {
 		for i := range w0.Data {
 			w0.Data[i], b0.Data[i] = -math.Abs(w0.Data[i])-0.1, -math.Abs(b0.Data[i])-0.1
@@ -146,6 +154,9 @@ func c11History(k *fw.K, quick bool) {
 		conf.LearningRate = 123 // the caller's config is overwritten after construction
 	}
 	newBatch := func() (*ref.T, *ref.T) {
+		if m.Variant == "vary-batch" {
+			m.B = 1 + r.Intn(6) // e.g. a smaller last batch
+		}
 		x := RandT(r, []int{m.B, m.D}, -1, 1)
 		if m.Variant == "dead-relu" {
 			x = RandT(r, []int{m.B, m.D}, 0.1, 1)
@@ -164,6 +175,26 @@ func c11History(k *fw.K, quick bool) {
 			}
 			if m.Loss == "mse" {
 				t.Data[i] = r.Float64()*2 - 1
+			}
+		}
+		if m.Variant == "exact-fit" {
+			// multiples of 1/8 keep every product and sum exact; about half of the outputs are fitted exactly
+			for i := range x.Data {
+				x.Data[i] = float64(1+r.Intn(8)) / 8
+			}
+			cw, e1 := rt.Read(fc.Weight)
+			cb, e2 := rt.Read(fc.Bias)
+			if e1 == nil && e2 == nil {
+				y, _ := ref.FC(x, cw, cb)
+				for i := range t.Data {
+					t.Data[i] = float64(r.Intn(9)-4) / 4
+					if r.Intn(2) == 0 {
+						t.Data[i] = y.Data[i]
+						if m.Act == "relu" && t.Data[i] < 0 {
+							t.Data[i] = 0
+						}
+					}
+				}
 			}
 		}
 		return x, t
